@@ -14,6 +14,82 @@ LOOKBACK = 4
 PAR = int(os.environ.get("VERIF_PAR", "5"))
 
 
+# mirror of Dims / InSpace of spec/msg/Validator.tla, used only to *propose* rows (TLC re-checks membership: Conf_InSpace)
+DIMS = dict(ph=["QUALITY", "CONVERGE", "PREPARE", "COMMIT", "DECIDE", "INITIAL", "TERMINATED", "BOGUS"], r=[0, 1, 2, -1],
+            v=["bot", "base", "ext", "bad"], snd=["member", "zero", "stranger"], sig=["ok", "otherpayload", "othersigner"],
+            tk=["none", "ok", "wronground", "othersigner", "absent"], jph=["none", "PREPARE", "COMMIT", "QUALITY"], jr=[-1, 0, 1],
+            jv=["same", "bot", "other", "bad"], jinst=["same", "other"], jsupp=["same", "other"],
+            jS=["strong", "short", "zero", "oob"], jagg=["ok", "otherpayload", "othersigners"])
+JNONE = dict(jph="none", jr=0, jv="same", jinst="same", jsupp="same", jS="strong", jagg="ok")
+MSG_PHASES = DIMS["ph"][:5]
+
+
+def base_row(**k):
+    d = dict(ph="PREPARE", r=0, v="ext", snd="member", sig="ok", tk="none")
+    d.update(JNONE)
+    d.update(k)
+    return d
+
+
+def in_space(d):
+    if (d["ph"] == "CONVERGE") != (d["tk"] != "none"):
+        return False
+    if d["snd"] != "member" and d["sig"] != "ok":
+        return False
+    jn = all(d[k] == v for k, v in JNONE.items())
+    if d["jph"] == "none" and not jn:
+        return False
+    if d["jinst"] == "other" and d["jsupp"] == "other":
+        return False
+    if d["ph"] not in MSG_PHASES:
+        return jn or (d["jph"] in ("PREPARE", "COMMIT") and d["jr"] == 0 and d["jv"] == "same" and d["jinst"] == "same"
+                      and d["jsupp"] == "same" and d["jS"] == "strong" and d["jagg"] == "ok")
+    return True
+
+
+def neighbours(a):
+    """the message a and every message of the space that differs from it in exactly one coordinate (a changed phase takes the
+    ticket coordinate along; a justification added to / removed from a message counts as one change)"""
+    out = [dict(a)]
+    for f in FIELDS:
+        for val in DIMS[f]:
+            if val == a[f]:
+                continue
+            d = dict(a)
+            d[f] = val
+            if f == "ph":
+                d["tk"] = "ok" if val == "CONVERGE" else "none"
+            if f == "jph" and val == "none":
+                d.update(JNONE)
+            if in_space(d) and d not in out:
+                out.append(d)
+    if a["jph"] == "none":   # attach each kind of well-formed justification
+        for jph in ("PREPARE", "COMMIT"):
+            for jr in (-1, 0):
+                for jv in ("same", "bot"):
+                    d = dict(a, jph=jph, jr=jr, jv=jv)
+                    if in_space(d) and d not in out:
+                        out.append(d)
+    return out
+
+
+def valid_looking():
+    """messages that look valid for every step / round (incl. 2^64-1) / justification kind; their one-coordinate neighbourhoods are
+    part of every run, whatever slice of the enumerated space the seed selects"""
+    out = [base_row(ph="QUALITY", r=0), base_row(ph="QUALITY", r=0, v="base"), base_row(ph="PREPARE", r=0), base_row(ph="PREPARE", r=0, v="bot"),
+           base_row(ph="COMMIT", r=0, v="bot"), base_row(ph="COMMIT", r=1, v="bot")]
+    for r in (1, 2, -1):
+        out += [base_row(ph="PREPARE", r=r, jph="PREPARE", jr=-1), base_row(ph="PREPARE", r=r, jph="COMMIT", jr=-1, jv="bot"),
+                base_row(ph="PREPARE", r=r, v="bot", jph="COMMIT", jr=-1), base_row(ph="PREPARE", r=r, v="bot", jph="PREPARE", jr=-1),
+                base_row(ph="CONVERGE", r=r, tk="ok", jph="PREPARE", jr=-1), base_row(ph="CONVERGE", r=r, tk="ok", jph="COMMIT", jr=-1, jv="bot")]
+    for r in (0, 1, 2, -1):
+        out.append(base_row(ph="COMMIT", r=r, jph="PREPARE"))
+    for jr in (0, 1, -1):
+        out.append(base_row(ph="DECIDE", r=0, jph="COMMIT", jr=jr))
+    out.append(base_row(ph="DECIDE", r=0, v="base", jph="COMMIT"))
+    return out
+
+
 def cfg_with(specdir, cfg, **consts):
     """bytes of <cfg> with some CONSTANT values replaced (e.g. Slice = seed mod NSlices)"""
     s = open(os.path.join(specdir, cfg)).read()
